@@ -43,6 +43,10 @@ def parse_cases():
           'a?b:c', 'a ?b :c', 'a ? b : c : d', 'a ? : c', '{a:b}?c:d']
     # no escape processing in strings (C10, C12): a backslash is an ordinary character and the first matching quote closes the string
     c += ['"it\'s \\"ok\\""', "'a\\'b'", '"a\\"', "'\\'", '"a\\" + "b"', "'\\' == '\\'", "\"a' + 'b\\\"\"", "'\\n'", '"\\\\"']
+    for k in list(range(0, 10)) + list(range(14, 34)) + [62, 63, 64, 126, 127, 128, 254, 255, 256]:
+        for u in ['é', '日', '🙂']:
+            c.append("'" + 'a' * k + u * 4 + "'")
+    c += ["'São José dos Campos – SP'", "x = 'ééééééééééééééééééééééééééééééé'; x", "f('" + 'é' * 40 + "')", "['" + 'a' * 23 + "é', '" + 'b' * 24 + "日']"]
     # multi-byte neighbours (C01 / C10)
     for u in ['é', 'ü', '日本', '🙂', 'ключ']:
         c += ['+%s' % u, '1+%s' % u, 'a>=%s' % u, '!%s' % u, 'x &&%s' % u, "'%s'" % u, "'%s'=='%s'" % (u, u), "['%s',1,2]" % u, "{'%s':1}" % u, "f('%s')" % u, "'%s')" % u, "['%s',,1]" % u,
@@ -99,6 +103,7 @@ def exec_cases():
           '1e5', '1E5', '10e-3', '2e+3', '1.5E6', '1e', '1e+', '1.5e-4294967295', '0.25E-4294967294', '3 + 1.5e-4294967295 * 2', '1e28', '1e-28', '123456789012345678e1 == 1234567890123456780',
           '1.2.3', '1..2', 'x = 1.2.3; x', '1.2.3 + 1', '12abc', '1_000', '1.', '.5', '1.e1', '79228162514264337593543950336', '79228162514264337593543950335', '7922816251426433759354395033.5', '0.0000000000000000000000000001', '1.0000000000000000000000000000',
           '9007199254740993 == 9007199254740992', '0.1 + 0.2 == 0.30000000000000004', '1.000000000000000000000000001 == 1', '0.30000000000000001 != 0.3', '9007199254740993 in [9007199254740992]', "'1' == 1", "1 == '1'", "'1.0' in [1]", '1.0 == 1', '[1.0] == [1]',
+          'price = 1.1; price = 1.10; price', 'qty = 3; qty = 3.00; qty', 'r = 0.5; r = 0.500; r = 0.50; r', 'a = 1.0; b = a; a = 1; [a, b]', 'x = 2.50; y = x; y',
           'boomT()', 'boomP()', 'boomT', 'sum(1, boomT())', 'min(boomP(), 1)', '[boomT(), one()]', 'x = boomP(); x', 'boomT() ? 1 : 2', 'max(1, 2) + boomP()',
           'boom', 'cnt(boom, two())', 'id(boom)', '[one, boom, two()]', '{one: boom}', 'boom + one()', 'one() + boom', 'true ? boom : 1', 'false ? boom : two()', 'boom ? 1 : 2', 'x = 1; y = boom; z = two(); 4', 'x = boom', '-boom', 'boom++', 'cnt(one, two, t)', 't ? one : two',
           'x = 1', 'x = 1; x', 'x = 1; y = x + 1; y', 'x = 1; x += 2; x', 'x = 6; x -= 1; x *= 3; x %= 4; x', 'x = 8; x /= 2; x', 'x = 6; x &= 3; x |= 8; x ^= 1; x', 'x = y = 3', 'x = 1; x = true; x', 'x += 1', 'x = 1; x += true', 'x = 1; x += true; x',
@@ -193,6 +198,16 @@ SCRIPTS = [
         ('reg_infix', '**', dict(tag='pow', p='120', assoc='R')), ('parse', '(a ** b) * c', {}), ('parse', 'a ** b ** c * d', {}), ('parse', '(a * b) ** c', {}),
         ('reg_infix', 'rminus', dict(tag='rm', p='100', assoc='R')), ('parse', '(a rminus b) << c', {}), ('parse', 'a << (b rminus c)', {})],
        expect=[('roundtrip',), ('roundtrip',), None, ('roundtrip',), ('roundtrip',), ('roundtrip',), None, ('roundtrip',), ('roundtrip',)]),
+  dict(name='context_function_shadows_global_and_the_global_is_not_called', steps=[('reg_fn', 'one', dict(tag='global')), ('reg_fn', 'cnt', dict(tag='global')), ('reg_fn', 'gl', dict(tag='global')),
+        ('exec', 'one()', {}), ('exec', 'cnt(one(), two())', {}), ('exec', 'gl(one())', {}), ('exec', 'x = one(); y = one(); x + y', {})],
+       expect=[None, None, None, ('trace', 'one()'), ('trace', 'one();two();cnt(Number(1),Number(2))'), ('trace', 'one();G:gl(Number(1))'), ('trace', 'one();one()')]),
+  dict(name='long_operator_names', steps=[('reg_postfix', 'is_positive_number', dict(tag='pos')), ('reg_prefix', 'absolute_value_of', dict(tag='abs')), ('reg_infix', 'is_divisible_by', dict(tag='divby', p='115', assoc='L')),
+        ('parse', '3 is_positive_number', {}), ('parse', 'absolute_value_of 3', {}), ('parse', '6 is_divisible_by 3', {}), ('parse', '(3 is_positive_number)', {}), ('parse', 'f(3 is_positive_number)', {})],
+       expect=[None, None, None, ('ast', 'Postfix(Literal(Number(3)), "is_positive_number")'), ('ast', 'Unary("absolute_value_of", Literal(Number(3)))'), ('ast', 'Binary("is_divisible_by", Literal(Number(6)), Literal(Number(3)))'),
+               ('ast', 'Postfix(Literal(Number(3)), "is_positive_number")'), ('ast', 'Function("f", [Postfix(Literal(Number(3)), "is_positive_number")])')]),
+  dict(name='printer_sees_operators_registered_after_its_first_use', steps=[('parse', 'a + b * c', {}), ('reg_infix', 'pow', dict(tag='pow', p='130', assoc='R')), ('parse', '(a + b) pow c', {}), ('parse', 'a pow (b pow c)', {}), ('parse', '(a pow b) pow c', {}),
+        ('reg_infix', 'xor', dict(tag='xor', p='45', assoc='L')), ('parse', 'a xor (b || c)', {}), ('parse', '(a xor b) && c', {})],
+       expect=[None, None, ('roundtrip',), ('roundtrip',), ('roundtrip',), None, ('roundtrip',), ('roundtrip',)]),
   dict(name='postfix_registered_after_use', steps=[('parse', '5!!', {}), ('reg_postfix', '!!', dict(tag='ff')), ('parse', '5!!', {})], expect=[('reject',), None, ('ast', 'Postfix(Literal(Number(5)), "!!")')]),
   dict(name='word_postfix_registered_after_use', steps=[('parse', '3 squared', {}), ('reg_postfix', 'squared', dict(tag='sq')), ('parse', '3 squared', {})],
        expect=[('ast', 'Stmt([Literal(Number(3)), Reference("squared")])'), None, ('ast', 'Postfix(Literal(Number(3)), "squared")')]),
